@@ -9,7 +9,7 @@ CLAIMED = {
    technique='deterministic simulation: seeded DTML programs run against a scripted environment; exception / BaseException / dtml-return injected at every call-back site (first and last invocation, pairs), namespace snapshots taken by sentinel call-backs',
    text='Per generated program every single fault (site x first/last invocation x kind) is enumerated, plus seeded pairs; the oracle compares live namespace snapshots taken by sentinel call-backs before/after every block and the caller-owned TemplateDict before/after the whole call. Programs themselves are sampled, so this is enumeration of the fault space of sampled programs, not a proof.',
    note='Trusts CPython exception semantics and that __render_with_namespace__ hands the live TemplateDict to call-backs (existing seam). RecursionError at arbitrary depth and asynchronous exceptions between two lines are out of scope.'),
- 'C09': dict(engine='A-environment+model', level='exploration', ref='4 (C09)',
+ 'C09': dict(engine='A-environment', level='exploration', ref='4 (C09)',
    technique='deterministic simulation: conditional programs run against volatile / raising / armed-but-lazy scripted call-backs; recorded invocation history compared with a reference interpreter',
    text='Seeded exploration of condition chains x truth scripts x armed faults; oracle is the ordered invocation history and output of a small reference interpreter, cut at the first fired fault.',
    note='Trusts the reference interpreter for the conditional sub-language (second implementation, restricted to what C09 states).'),
@@ -17,7 +17,7 @@ CLAIMED = {
    technique='deterministic simulation of the sequence producer: counting, unbounded, early-ending and failing iterators / lazy sequences behind a batched dtml-in; pull-count bound checked per run',
    text='Seeded exploration of batch parameters x simulated producers; the oracle is the pull counter of the producer and the element numbers displayed, nothing else. One listed known finding (previous-batch look-back with overlap > size+orphan).',
    note='A failed producer is treated as dead (no recovery); sort/reverse/sequence-length/next-batches/statistics are excepted by the property and not used.'),
- 'C14': dict(engine='A-environment+model', level='fault_enumeration', ref='4 (C14)',
+ 'C14': dict(engine='A-environment', level='fault_enumeration', ref='4 (C14)',
    technique='deterministic simulation: try/except/else/finally/raise/return programs, exception class and raising position enumerated per program over a class hierarchy; outcome and marker history compared with a reference interpreter that uses Python\'s own try/except/finally',
    text='Per generated program every raising position x exception class is enumerated (plus seeded pairs and repeated renders of the same cooked template); oracle is the final outcome and the ordered history of part markers predicted by a reference interpreter whose control flow is Python\'s own.',
    note='Trusts the reference interpreter for the try/raise/return sub-language; non-Exception BaseExceptions and errors inside a raise body other than dtml-return are not asserted.'),
